@@ -68,4 +68,19 @@ theorem C08_validators_translated (x : Int) :
 
 #print axioms C08_validators_translated
 
+
+/-- **C08 (translated loop bodies).** One iteration of the `for _, name := range names` loops of `validateMethods`,
+`validateRequestHeaders` and `validateResponseHeaders` — the single-pass folds with their mid-loop flags for `*` and
+`Authorization`, the validity test *before* normalisation, the forbidden / prohibited / safelisted tests on the normalised
+name, the error values, what is stored — is translated from /repo's config.go on every run and equals the hand-written
+step function of the model, for every loop state and element; hence the folds over any configured list are the model's.
+(The prologue `len(names) == 0` and the epilogue — `errors.Join`, the assignments into `icfg` — stay hand-modelled.) -/
+theorem C08_loops_translated (credentialed : Bool) (names : List Bytes) :
+    names.foldl Gen.GoSrc.methodStep {} = names.foldl Validate.methodStep {} ∧
+    names.foldl (Gen.GoSrc.reqHdrStep credentialed) {} = names.foldl (Validate.reqHdrStep credentialed) {} ∧
+    names.foldl (Gen.GoSrc.resHdrStep credentialed) {} = names.foldl (Validate.resHdrStep credentialed) {} :=
+  Translated.loops_eq credentialed names
+
+#print axioms C08_loops_translated
+
 end Cors
